@@ -98,11 +98,20 @@ type pullStream struct {
 	ended   bool
 	endErr  error
 	seen    int // number of changes already judged (owned by the driver goroutine)
+
+	// stallAfter > 0: the reader stops receiving after that many responses until resume is closed (a client that
+	// stays connected but does not read)
+	stallAfter int
+	resume     chan struct{}
 }
 
 func (in *instance) openPull(tr *triple, key string, mask []string, updatesOnly bool) (*pullStream, error) {
+	return in.openPullStalling(tr, key, mask, updatesOnly, 0)
+}
+
+func (in *instance) openPullStalling(tr *triple, key string, mask []string, updatesOnly bool, stallAfter int) (*pullStream, error) {
 	ctx, cancel := context.WithCancel(context.Background())
-	ps := &pullStream{tr: tr, key: key, mask: mask, updatesOnly: updatesOnly, name: in.name, cancel: cancel}
+	ps := &pullStream{tr: tr, key: key, mask: mask, updatesOnly: updatesOnly, name: in.name, cancel: cancel, stallAfter: stallAfter, resume: make(chan struct{})}
 	cs, err := in.conns[tr.pull.svc].conn.NewStream(ctx, &grpc.StreamDesc{StreamName: string(tr.pull.md.Name()), ServerStreams: true}, tr.pull.full)
 	if err != nil {
 		cancel()
@@ -117,7 +126,10 @@ func (in *instance) openPull(tr *triple, key string, mask []string, updatesOnly 
 		return nil, err
 	}
 	go func() {
-		for {
+		for n := 0; ; n++ {
+			if ps.stallAfter > 0 && n == ps.stallAfter {
+				<-ps.resume
+			}
 			resp := newMsg(tr.pull.md.Output())
 			err := cs.RecvMsg(resp.Interface())
 			if err != nil {
